@@ -1,6 +1,6 @@
 """Theorems contributed by lean Props/MPU.lean (MP model beyond one in-order epoch: persistent workers across
-resets, in_order=False).  No Python legs of their own: the K-T leg of mp_trace.py already generates
-in_order=False cases and persistent / mid-epoch-reset cases."""
+resets, in_order=False, and the snapshot-window argument for iterable datasets).  No Python legs of their own: the
+K-T leg of mp_trace.py already generates in_order=False cases and persistent / mid-epoch-reset cases."""
 from __future__ import annotations
 
 LEAN_MODULES = ["TorchDataVerif.Props.MPU"]
@@ -11,5 +11,7 @@ THEOREMS_BY_PROP = {
         "unordered_safe_iter", "unordered_complete_iter", "take_snapshot_assertion_holds_unordered", "exU_observed",
         "multi_epoch_prefix", "multi_epoch_complete", "multi_epoch_unordered", "epoch_fresh", "no_stale_yield")],
     "C17": [T + n for n in ("reset_fresh", "workers_constant", "no_stale_yield", "epoch_fresh")],
-    "C10": [T + n for n in ("take_snapshot_assertion_holds_unordered", "exU_observed")],
+    "C10": [T + n for n in ("take_snapshot_assertion_holds_iter", "error_position_iter",
+                            "take_snapshot_assertion_holds_unordered", "exU_observed")],
+    "C05": [T + n for n in ("take_snapshot_assertion_holds_iter",)],
 }
